@@ -178,8 +178,10 @@ struct Driver
     // ------------------------------------------------------------ shrinking
     struct Target { std::string cls, site; };
     int shrink_budget = 600, shrink_used = 0;
+    double shrink_deadline = 0; // wall clock; only bounds how far a plan is minimised, never whether it is reported
     bool still_fails(Plan const &p, Target const &t)
     {
+        if (shrink_used < shrink_budget && now_s() > shrink_deadline) shrink_used = shrink_budget;
         if (shrink_used >= shrink_budget) return false;
         ++shrink_used;
         Outcome o = run_plan_child(p);
@@ -188,6 +190,9 @@ struct Driver
     Plan shrink(Plan p, Target const &t)
     {
         shrink_used = 0;
+        // a hanging run costs a full item timeout per attempt: minimise those only a little
+        shrink_budget = t.cls == "timeout" ? 12 : 600;
+        shrink_deadline = now_s() + (tier ? 600 : 120);
         // 1. truncate after the failing op when known
         {
             Outcome o = run_plan_child(p);
@@ -596,11 +601,15 @@ struct Driver
         }
         // crashes -> plans
         uint64_t env_kills = 0;
+        uint64_t timeouts_recorded = 0, timeouts_skipped = 0;
         for (uint64_t idx : bo.crashed_idx)
         {
             RawViolation rv;
-            if (record_crash(idx, rv)) { bo.viol.push_back(rv); continue; }
             int const stt = bo.crash_status.count(idx) ? bo.crash_status[idx] : 0;
+            bool const timed_out = WIFSIGNALED(stt) && (WTERMSIG(stt) == SIGVTALRM || WTERMSIG(stt) == SIGALRM);
+            // every re-execution of a hanging item costs a full item timeout: four of them are enough to report the hang
+            if (timed_out && timeouts_recorded >= 4) { ++timeouts_skipped; continue; }
+            if (record_crash(idx, rv)) { bo.viol.push_back(rv); if (timed_out) ++timeouts_recorded; continue; }
             bool const external = WIFSIGNALED(stt) && (WTERMSIG(stt) == SIGKILL || WTERMSIG(stt) == SIGTERM || WTERMSIG(stt) == SIGHUP || WTERMSIG(stt) == SIGINT);
             RawViolation rv2;
             if (external && !record_crash(idx, rv2))
@@ -611,6 +620,7 @@ struct Driver
             }
             RawViolation x; x.idx = idx; x.crashed = true; x.cls = "nonreproducible-crash"; x.site = classify_crash(stt, "") + (bo.crash_text.count(idx) && !bo.crash_text[idx].empty() ? ": " + bo.crash_text[idx] : std::string()); x.path = ""; bo.viol.push_back(x);
         }
+        if (timeouts_skipped) printf("NOTE property=%s %llu further items hit the per-item CPU timeout and were not re-executed individually\n", prop.c_str(), (unsigned long long)timeouts_skipped);
         // group, shrink, gate
         int exit_code = 0;
         uint64_t new_violations = 0, harness_errors = 0, foreign_notes = 0;
@@ -618,11 +628,12 @@ struct Driver
         for (auto const &rv : bo.viol) groups[{rv.cls, rv.site}].push_back(rv);
         for (auto const &rv : bo.known) groups[{rv.cls, rv.site}].push_back(rv);
         std::vector<std::string> known_lines, viol_lines;
-        int handled = 0;
+        int handled = 0, timeout_groups = 0;
         for (auto const &g : groups)
         {
             if (handled++ >= 20) break;
             RawViolation const &rv = g.second.front();
+            if (rv.cls == "timeout" && timeout_groups++ >= 2) continue; // the same hang seen from several call sites
             if (rv.path.empty()) { ++harness_errors; printf("HARNESS-ERROR property=%s item=%llu: a worker died (%s) and the death did not recur when the item was re-executed in a fresh process (%zu such items)\n", prop.c_str(), (unsigned long long)rv.idx, rv.site.c_str(), g.second.size()); continue; }
             Plan p; std::string err;
             if (!plan_from_text(read_file(rv.path), *eng, p, err)) { ++harness_errors; printf("HARNESS-ERROR property=%s cannot parse %s: %s\n", prop.c_str(), rv.path.c_str(), err.c_str()); continue; }
